@@ -35,6 +35,8 @@ Inductive bexpr :=
 | BDefined (a : bexpr)
 | BDefinedI (e : iexpr)
 | BOf (q : quant) (set : list nat)
+| BOfIn (q : quant) (set : list nat) (lo hi : iexpr)      (* q of set in (lo..hi) *)
+| BOfAt (q : quant) (set : list nat) (e : iexpr)          (* q of set at e *)
 | BForIn (q : quant) (lo hi : iexpr) (body : bexpr)
 | BForList (q : quant) (items : list iexpr) (body : bexpr)
 | BForOf (q : quant) (set : list nat) (body : bexpr)   (* the body refers to the current string with BCur... *)
@@ -148,6 +150,20 @@ Fixpoint eval_b (en : env) (b : bexpr) : option bool :=
       quant_verdict (eval_quant en q)
         (count_true (map (fun s => Some (match matches_of en s with [] => false | _ => true end)) set))
         (Z.of_nat (length set))
+  | BOfIn q set lo hi =>
+      match eval_i en lo, eval_i en hi with
+      | Some l, Some h =>
+          quant_verdict (eval_quant en q)
+            (count_true (map (fun s => Some (found_in (matches_of en s) l h)) set)) (Z.of_nat (length set))
+      | _, _ => None
+      end
+  | BOfAt q set e =>
+      match eval_i en e with
+      | Some o =>
+          quant_verdict (eval_quant en q)
+            (count_true (map (fun s => Some (found_at (matches_of en s) o)) set)) (Z.of_nat (length set))
+      | None => None
+      end
   | BForIn q lo hi body =>
       match eval_i en lo, eval_i en hi with
       | Some l, Some h =>
